@@ -195,7 +195,13 @@ impl AOpt {
 fn type_ref(parts: &[String]) -> extension::postgres::TypeRef {
     use extension::postgres::TypeRef;
     let i = |s: &String| Alias::new(s).into_iden();
-    match parts.len() { 1 => TypeRef::Type(i(&parts[0])), 2 => TypeRef::SchemaType(i(&parts[0]), i(&parts[1])), _ => TypeRef::DatabaseSchemaType(i(&parts[0]), i(&parts[1]), i(&parts[2])) }
+    // through the public conversions (a name, a pair, a triple), which must build the variants one would write by hand
+    use extension::postgres::IntoTypeRef;
+    let a = |s: &String| Alias::new(s);
+    let (built, by_hand) = match parts.len() { 1 => (a(&parts[0]).into_type_ref(), TypeRef::Type(i(&parts[0]))), 2 => ((a(&parts[0]), a(&parts[1])).into_type_ref(), TypeRef::SchemaType(i(&parts[0]), i(&parts[1]))),
+        _ => ((a(&parts[0]), a(&parts[1]), a(&parts[2])).into_type_ref(), TypeRef::DatabaseSchemaType(i(&parts[0]), i(&parts[1]), i(&parts[2]))) };
+    assert_eq!(format!("{built:?}"), format!("{by_hand:?}"), "IntoTypeRef builds another variant than the one written by hand");
+    built
 }
 
 pub enum PgReal { TC(extension::postgres::TypeCreateStatement), TD(extension::postgres::TypeDropStatement), TA(extension::postgres::TypeAlterStatement),
@@ -318,7 +324,8 @@ impl Ddl {
             }
             Ddl::TypeDrop(ns, ie, o) => {
                 let mut t = extension::postgres::Type::drop();
-                for n in ns { t.name(type_ref(n)); }
+                // several names: one call of names(), or name() per element (the same statement)
+                if ns.len() >= 2 && ns[0].len() % 2 == 1 { t.names(ns.iter().map(|n| type_ref(n))); } else { for n in ns { t.name(type_ref(n)); } }
                 if *ie { t.if_exists(); }
                 match o { Some(0) => { t.cascade(); } Some(_) => { t.restrict(); } None => {} }
                 Real::Pg(PgReal::TD(t))
